@@ -67,6 +67,17 @@ pub struct ContextHandle {
 }
 
 impl ContextHandle {
+    /// Allocates the next packet identifier. Zero is not a valid identifier,
+    /// it is skipped when the counter wraps around.
+    fn next_packet_id(&self) -> u16 {
+        loop {
+            let packet_id = self.packet_id.fetch_add(1, Ordering::Relaxed);
+            if packet_id != 0 {
+                return packet_id;
+            }
+        }
+    }
+
     /// Performs graceful disconnection with the broker by sending the
     /// [Disconnect](https://docs.oasis-open.org/mqtt/mqtt/v5.0/os/mqtt-v5.0-os.html#_Toc3901205) packet.
     ///
@@ -144,7 +155,7 @@ impl ContextHandle {
             }
             QoS::AtLeastOnce => {
                 let packet = opts
-                    .packet_identifier(self.packet_id.fetch_add(1, Ordering::Relaxed))
+                    .packet_identifier(self.next_packet_id())
                     .build()?;
 
                 let mut buf = BytesMut::with_capacity(packet.packet_len());
@@ -176,7 +187,7 @@ impl ContextHandle {
             }
             QoS::ExactlyOnce => {
                 let packet = opts
-                    .packet_identifier(self.packet_id.fetch_add(1, Ordering::Relaxed))
+                    .packet_identifier(self.next_packet_id())
                     .build()?;
 
                 let mut buf = BytesMut::with_capacity(packet.packet_len());
@@ -275,7 +286,7 @@ impl ContextHandle {
         let (str_sender, str_receiver) = mpsc::unbounded();
 
         let packet = opts
-            .packet_identifier(self.packet_id.fetch_add(1, Ordering::Relaxed))
+            .packet_identifier(self.next_packet_id())
             .subscription_identifier(self.sub_id.fetch_add(1, Ordering::Relaxed))
             .build()?;
 
@@ -318,7 +329,7 @@ impl ContextHandle {
         let (sender, receiver) = oneshot::channel();
 
         let packet = opts
-            .packet_identifier(self.packet_id.fetch_add(1, Ordering::Relaxed))
+            .packet_identifier(self.next_packet_id())
             .build()?;
 
         let mut buf = BytesMut::with_capacity(packet.packet_len());
